@@ -120,27 +120,21 @@ Print Assumptions C14_parser_and_constructor_never_panic.
    primitive constructor accepts) meets the property's minimum strengths:
    HMAC key >= 16 and tag >= 10, AES keys of 16 or 32 bytes, HKDF-PRF key >=
    32, ECDSA hash at least as strong as the curve, RSA modulus >= 2048 and
-   e = 65537.
-   PARTIAL: the RSA clause needs the exponent field to fit 64 bits.  The full
-   statement
-     forall kd prefix idreq, usable kd prefix idreq = true -> strength_ok kd
-   is false of the code, see the next theorem. *)
-Theorem C14_usable_implies_strength_partial :
+   e = 65537 (the exponent as a number, of any encoded length). *)
+Theorem C14_usable_implies_strength :
   forall ec_point_ok ec_pub_of_priv kd prefix idreq,
-    usable ec_point_ok ec_pub_of_priv kd prefix idreq = true ->
-    exponent_fits_64 kd -> strength_ok kd.
-Proof. exact usable_strength_partial. Qed.
-Print Assumptions C14_usable_implies_strength_partial.
+    usable ec_point_ok ec_pub_of_priv kd prefix idreq = true -> strength_ok kd.
+Proof. exact usable_strength. Qed.
+Print Assumptions C14_usable_implies_strength.
 
-(* FINDING (model level; reproduced on the implementation by the direct
-   check): signature/rsassa{pkcs1,pss}/protoserialization.go compute the
-   exponent as int(exponent.Int64()), the low 64 bits.  A public key whose
-   exponent field is 2^64 + 65537 is accepted and yields a verifier. *)
-Theorem C14_rsa_exponent_truncation :
+(* Regression for the defect fixed in /repo (commit 067e856): the RSA public
+   key with exponent field 2^64 + 65537, which int(exponent.Int64()) used to
+   read as 65537, is not strong and is now refused by the parser. *)
+Theorem C14_rsa_exponent_truncation_rejected :
   forall ec_point_ok ec_pub_of_priv,
-    usable ec_point_ok ec_pub_of_priv rsa_trunc_kd pt_tink 7 = true /\ ~ strength_ok rsa_trunc_kd.
-Proof. exact rsa_exponent_truncation. Qed.
-Print Assumptions C14_rsa_exponent_truncation.
+    ~ strength_ok rsa_trunc_kd /\ parse_key ec_point_ok ec_pub_of_priv rsa_trunc_kd pt_tink 7 = Err.
+Proof. exact rsa_exponent_truncation_rejected. Qed.
+Print Assumptions C14_rsa_exponent_truncation_rejected.
 
 (* Non-vacuity: a two-key keyset (a 16-byte AES-GCM key, TINK, id 5, primary;
    an unknown key type, RAW, id 9, disabled), serialized by hand, is read into
@@ -166,5 +160,5 @@ Proof.
   - exists h. split; [exact R1|]. destruct R2 as [A [B C]]. split; [exact A|]. split; [exact B|]. split; [exact C|].
     apply read_wf in R1. destruct R1 as [ks [_ [_ [W _]]]]. exact W.
   - split; [vm_compute; reflexivity|]. split; [|split; vm_compute; reflexivity].
-    apply (usable_strength_partial (fun _ _ => false) (fun _ _ => None) _ pt_tink 5); vm_compute; reflexivity.
+    apply (usable_strength (fun _ _ => false) (fun _ _ => None) _ pt_tink 5); vm_compute; reflexivity.
 Qed.
